@@ -261,7 +261,50 @@ def c17_passthrough(cls: int, how: int, n: int) -> bool:
   return False
 
 
+ODD_NAMES = ['plain', '{x}', '{', '{0}', 'a}b{', '%s', '{!r}']
+
+
+def c17_missing_positional(kwname: int, boundname: int, scoped: bool, v: int) -> bool:
+  """
+  pre: 0 <= kwname < 7 and 0 <= boundname < 7
+  """
+  world.fresh()
+  kwname = rt.pick(kwname, 7)
+  boundname = rt.pick(boundname, 7)
+  scoped = rt.flag(scoped)
+  rt.sig(('missing_positional', kwname, boundname, scoped), nontrivial=kwname or boundname)
+  # reqkw(a, **kw): `a` is supplied by nobody -> Python raises TypeError inside the call; Gin extends its
+  # message with the names the caller / Gin supplied - whatever characters those names contain
+  gin.bind_parameter(('s' if scoped else '', 'vw.reqkw', ODD_NAMES[boundname]), v)
+  caught = None
+  try:
+    if scoped:
+      with gin.config_scope('s'):
+        world.reqkw(**{ODD_NAMES[kwname] + '_c': 1})
+    else:
+      world.reqkw(**{ODD_NAMES[kwname] + '_c': 1})
+  except TypeError as e:
+    caught = e
+  except Exception as e:
+    with rt.native():
+      return rt.no('the TypeError of a missing positional argument arrived as %r' % (e,))
+  if caught is None or world.LOG:
+    return rt.no('no TypeError')
+  with rt.native():
+    msg = str(caught)
+    return ("In call to configurable 'reqkw'" in msg and (ODD_NAMES[kwname] + '_c') in msg) or rt.no(
+        'message %r' % msg)
+
+
 HARNESSES = {
+    'c17_missing_positional': dict(
+        fn='c17_missing_positional',
+        anchors=['gin.config:gin_wrapper', 'gin.utils:augment_exception_message_and_reraise'],
+        smoke=[dict(kwname=1, boundname=0, scoped=False, v=3), dict(kwname=0, boundname=3, scoped=True, v=3)],
+        tiers={'quick': dict(split=dict(kwname=list(range(7))), budget_s=60),
+               'thorough': dict(split=dict(kwname=list(range(7)), boundname=list(range(7))), budget_s=60)},
+        bounds='TypeError of a missing positional argument with caller keyword names / Gin-bound **kwargs names '
+               'containing format metacharacters ({x}, {, {0}, %s, {!r}), scoped or not'),
     'c17_attrs': dict(
         fn='c17_attrs',
         anchors=['gin.utils:augment_exception_message_and_reraise', 'gin.config:gin_wrapper'],
